@@ -9,61 +9,100 @@ HDR = ("From Coq Require Import Uint63.\nFrom Coq Require Import List ZArith Boo
        "Import ListNotations.\nOpen Scope Z_scope.\n")
 
 
-def be(n, x):
-    return int(x).to_bytes(n, "big")
+class Unrep(Exception):
+    """an answer of the implementation that cannot be expressed as an expectation for the comparator (already a mismatch)"""
 
 
-def h_seqs(l):
-    return core.hash_bytes(b"".join(be(8, x) for x in l))
+def intervals(l):
+    """strictly increasing runs of a number list as inclusive intervals (any list is representable: runs of length 1)"""
+    out = []
+    for x in l:
+        if out and out[-1][1] + 1 == x:
+            out[-1][1] = x
+        else:
+            out.append([x, x])
+    return "[" + "; ".join("(%d, %d)" % (a, b) for a, b in out) + "]"
 
 
-def h_gov(ents):
-    return core.hash_bytes(b"".join(be(2, e["tc"]) + be(8, e["sq"]) + be(4, len(e["b"]) // 2) + bytes.fromhex(e["b"]) for e in ents))
+def op_bytes(o):
+    return o.get("b") or o.get("mb") or ""
 
 
-def h_batch(ents):
-    return core.hash_bytes(b"".join(be(8, e["sq"]) + be(4, len(e["b"]) // 2) + bytes.fromhex(e["b"]) for e in ents))
+def op_index(r, hexbytes):
+    """index of the (latest) operation of the history whose Marshal output is exactly these bytes"""
+    m = r.get("_byval")
+    if m is None:
+        m = {}
+        for j, o in enumerate(r["ops"]):
+            if not o.get("panic"):
+                m[op_bytes(o)] = j
+        r["_byval"] = m
+    j = m.get(hexbytes)
+    if j is None:
+        raise Unrep("returned bytes %s... are not the Marshal output of any VAA stored in this history" % hexbytes[:40])
+    return j
 
 
-def h_strs(ids):
-    return core.hash_bytes(b"".join(be(4, len(s.encode())) + s.encode() for s in ids))
+def gents(r, q):
+    return core.glist("(%d, %d, %d%%nat)" % (e.get("tc", 0), e["sq"], op_index(r, e["b"])) for e in q.get("ents", []))
 
 
 def gop(o):
     if o.get("b"):
         return "St (B %s)" % core.gbytes(o["b"])
-    return "StV %s %s" % (gvaa(o["v"]), core.gbool(o.get("panic", False)))
+    return "StV %s (B %s) %s" % (gvaa(o["v"]), core.gbytes(o.get("mb", "")), core.gbool(o.get("panic", False)))
 
 
 def gseqs(q):
     return core.glist(str(x) for x in q.get("seqs", []))
 
 
-def gquery(h, pool, q):
+def split_ids(ids):
+    """FindMissingMessages renders "<ec>/<addr>/<tc>/<seq>": common prefix up to the last '/', and the numbers"""
+    pre, nums = None, []
+    for s in ids:
+        a, sep, b = s.rpartition("/")
+        if not sep or not b.isdigit() or str(int(b)) != b or (pre is not None and a + "/" != pre):
+            raise Unrep("missing-message id %r does not have the shape <prefix>/<decimal> shared by the whole answer" % s)
+        pre = a + "/"
+        nums.append(int(b))
+    return (pre or ""), nums
+
+
+def gquery(r, q):
+    h, pool = r["h"], r["pool"]
     t, code = q["t"], q["code"]
+    j = op_index(r, q["b"]) if (t == "get" and code == 0) else 0
     if h == "db":
         if t == "get":
-            return "QGet %d %d%%nat %d %d %d %d" % (q["ec"], q["ai"], q["tc"], q["sq"], code, core.hash_bytes(q.get("b", "")) if code == 0 else 0)
+            return "QGet %d %d%%nat %d %d %d %d%%nat" % (q["ec"], q["ai"], q["tc"], q["sq"], code, j)
         if t == "gap":
-            return "QGap %d %d%%nat %d %d %d %d %d" % (q["ec"], q["ai"], q["tc"], code, h_seqs(q.get("resp", [])) if code == 0 else 0, q["first"], q["last"])
+            return "QGap %d %d%%nat %d %d %s %d %d" % (q["ec"], q["ai"], q["tc"], code, intervals(q.get("resp") or []), q["first"], q["last"])
         if t == "gov":
-            return "QGov %d %d%%nat %s %d %d" % (q["ec"], q["ai"], gseqs(q), code, h_gov(q.get("ents", [])) if code == 0 else 0)
-        return "QBatch %d %d%%nat %d %s %d %d" % (q["ec"], q["ai"], q["tc"], gseqs(q), code, h_batch(q.get("ents", [])) if code == 0 else 0)
+            return "QGov %d %d%%nat %s %d %s" % (q["ec"], q["ai"], gseqs(q), code, gents(r, q))
+        return "QBatch %d %d%%nat %d %s %d %s" % (q["ec"], q["ai"], q["tc"], gseqs(q), code, gents(r, q))
     ahex = q.get("ahex", "")
     ahex = "" if ahex == "-" else (ahex or pool[q["ai"]])
     ab = "(B %s)" % core.gbytes(ahex.encode().hex())
     if t == "get":
-        return "QRpcGet %d %s %d %d %d %d" % (q["ec"], ab, q["tc"], q["sq"], code, core.hash_bytes(q.get("b", "")) if code == 0 else 0)
+        return "QRpcGet %d %s %d %d %d %d%%nat" % (q["ec"], ab, q["tc"], q["sq"], code, j)
     if t == "batch":
-        return "QRpcBatch %d %s %d %s %d %d" % (q["ec"], ab, q["tc"], gseqs(q), code, h_batch(q.get("ents", [])) if code == 0 else 0)
+        return "QRpcBatch %d %s %d %s %d %s" % (q["ec"], ab, q["tc"], gseqs(q), code, gents(r, q))
     if t == "gov":
-        return "QRpcGov %d %d%%nat %s %d %d" % (q["ec"], q["ai"], gseqs(q), code, h_gov(q.get("ents", [])) if code == 0 else 0)
-    return "QMissing %d %s %d %d %d %d %d" % (q["ec"], ab, q["tc"], code, h_strs(q.get("ids", [])) if code == 0 else 0, q["first"], q["last"])
+        return "QRpcGov %d %d%%nat %s %d %s" % (q["ec"], q["ai"], gseqs(q), code, gents(r, q))
+    pre, nums = split_ids(q.get("ids") or [])
+    return "QMissing %d %s %d %d (B %s) %s %d %d" % (q["ec"], ab, q["tc"], code, core.gbytes(pre.encode().hex()), intervals(nums), q["first"], q["last"])
 
 
 def gcase(r):
-    return "(%s, %s, %s)" % (core.glist("B " + core.gbytes(a) for a in r["pool"]), core.glist(gop(o) for o in r["ops"]),
-                             core.glist(gquery(r["h"], r["pool"], q) for q in r["q"]))
+    qs = []
+    for qi, q in enumerate(r["q"]):
+        try:
+            qs.append(gquery(r, q))
+        except Unrep as e:
+            r.setdefault("_unrep", []).append((qi, str(e)))
+            qs.append("QGet 0 0%nat 0 0 9 0%nat")   # never answered with code 9: counted as a mismatch of this query
+    return "(%s, %s, %s)" % (core.glist("B " + core.gbytes(a) for a in r["pool"]), core.glist(gop(o) for o in r["ops"]), core.glist(qs))
 
 
 def replay_of(r, qi, msg=None):
@@ -136,7 +175,7 @@ def run(ctx):
     ctx.cov["monitor_failures"] = nmon
     # model vs implementation: every store history replayed on the model, every answer compared
     bad = core.run_cases(ctx, "cases_C12", rows, HDR, "dcase", gcase, "(* ok : dcase -> bool is WH.model.DbRun.ok *)",
-                         weight=lambda r: 130 * len(r["ops"]) + 40 * len(r["q"]) + sum(len(q.get("resp", [])) for q in r["q"]))
+                         weight=lambda r: 130 * len(r["ops"]) + 40 * len(r["q"]) + sum(len(q.get("resp") or q.get("ids") or []) for q in r["q"]))
     if bad is None:
         return
     for i in bad[:3]:
